@@ -113,7 +113,7 @@ class CaseGen:
         r = self.r
         c = r.weighted([('from_str', 10), ('static', 5), ('with_capacity', 4), ('new', 2), ('char', 1), ('bool', 1),
                         ('collect_chars', 2), ('collect_strs', 1), ('display', 2), ('int', 2)])
-        if self.p.get('steer') and r.chance(1, 4): c = 'with_capacity'
+        if self.p.get('steer') and r.chance(1, 4): c = r.pick(['with_capacity', 'with_capacity', 'display'])
         if c == 'from_str':
             t = gen_text(r, r.pick(PAGEISH)) if self.p.get('large') and r.chance(1, 2) else gen_text(r)
             route = r.pick(['from', 'from', 'string', 'refstring', 'box', 'cowb', 'cowo', 'parse', 'tls', 'utf8', 'collect1'])
@@ -154,6 +154,9 @@ class CaseGen:
             self.slots.append(None if pa >= 0 else Slot(b''.join(ss), 'H'))
         elif c == 'display':
             ps = [gen_text(r, r.pick([0, 1, 5, 9, 16, 20])) for _ in range(r.pick([0, 1, 2, 3, 5]))]
+            if self.p.get('steer') and ps and r.chance(1, 2):
+                # a long piece among short ones (buffering adapters have thresholds: 32, 64, 128, 256 bytes)
+                ps[r.below(len(ps))] = gen_text(r, r.pick([31, 32, 33, 63, 64, 65, 100, 127, 128, 129, 255, 256, 257, 300]))
             ea, pa = -1, -1
             if ps and r.chance(1, 4):
                 ea = r.below(len(ps))
@@ -275,6 +278,8 @@ class CaseGen:
             s.text = t + b''.join(x for k, x in enumerate(ss) if pa < 0 or k < pa)
         elif c == 'write_fmt':
             ps = [gen_text(r, r.pick([0, 1, 5, 9, 16])) for _ in range(r.pick([0, 1, 2, 4]))]
+            if steer and ps and r.chance(1, 2):
+                ps[r.below(len(ps))] = gen_text(r, r.pick([31, 32, 33, 63, 64, 65, 100, 127, 128, 129, 255, 256, 257, 300]))
             ea, pa = -1, -1
             if ps and r.chance(1, 4): ea = r.below(len(ps))
             elif ps and self.p.get('user_panics') and r.chance(1, 4): pa = r.below(len(ps))
